@@ -115,3 +115,38 @@ TEXT["C18"] = dict(
     note="trusted: Coq kernel + vm_compute; package reflect is modelled not verified; types are not modelled",
     technique="Coq proof (case analysis / list induction over the reflect model) + differential correspondence",
 )
+
+TEXT["C10"] = dict(
+    text="Theorems (Coq kernel, no axioms) with the scheduler's choices as universally quantified inputs: for EVERY arrival permutation concurrent.DisjPlus / "
+         "DisjPlusZzz build exactly the stream of mini.DisjPlusNoZzz / mini.DisjPlus (stream equality, hence the same sequence on every run); DisjPlusNoOrder has the "
+         "same answers and for finite streams a permutation-equal answer list; for EVERY select pick sequence ConjPlus returns either the sequential bind stream or nil, "
+         "and nil only when some goal fails immediately, in which case (soundness+completeness of the search) the sequential conjunction has no answer either. Tie: cell "
+         "traces of the concurrent combinators under injected delays / GOMAXPROCS / repeated runs against the sequential model; thorough tier also under the race detector.",
+    note="partial: data-race freedom is a statement about the Go memory model that the model cannot exhibit (race-detector run is supporting validation); Go scheduler and channels trusted",
+    technique="Coq proof (schedule as explicit input: permutations / pick lists; monotonicity of immediate failure via soundness+completeness) + differential correspondence",
+)
+TEXT["C11"] = dict(
+    text="LTS models with schedules as label lists (Coq kernel, no axioms): ConjPlus/DisjPlus message protocol - with buffered channels (cap >= n, cap2 >= 1) no send ever blocks "
+         "and terminal configurations have no live sender, for every schedule and early-return point; exact leak law and worst case for unbuffered channels (refutation); "
+         "post-cancel execution - with Go refusing to spawn under a cancelled context the remaining steps are bounded by the remaining syntactic size and nothing blocks, "
+         "without it a recursive relation spawns unboundedly (refutation); the limiter ticker exits within 2 steps after cancel iff its send is guarded. Tie: goroutine-count "
+         "deltas of the real code after searches end / are cancelled at 0..k answers, with and without SetMaxRoutines, one process per case.",
+    note="partial: 'bounded time' is bounded steps in the model, wall-clock is runtime; the protocol models are hand abstractions of conj.go / limit.go / stream.go checked only through the goroutine-count oracle",
+    technique="Coq invariant/measure proofs over LTS models (all schedules) + goroutine-leak probes on the real code",
+)
+TEXT["C12"] = dict(
+    text="Permit/ticker LTS composed with a task tree (parents hold a permit while waiting for children), schedules as label lists (Coq kernel, no axioms): with a non-blocking "
+         "release a release step is always enabled; for every max >= 1 every schedule of a finite task tree terminates (strictly decreasing measure incl. ticks) and no non-final "
+         "configuration is stuck; limited runs project onto unlimited runs and every complete run delivers a permutation of all answers; blocking release is refuted by a concrete "
+         "deadlock schedule (max = 1). Tie: real ConcatO searches under SetMaxRoutines(max), max in 1..100, must finish with the unlimited multiset.",
+    note="partial: timing relative to the 10ms refill period is runtime; the limiter model is a hand abstraction of limit.go checked through the termination/multiset oracle",
+    technique="Coq measure/simulation proofs over an LTS (all schedules) + runtime probes",
+)
+TEXT["C17"] = dict(
+    text="The bodies of the gomini/regex relations are re-translated from the Go source on every run; denotation theorems over the regenerated terms against an inductive "
+         "language semantics with nullable/deriv (see Props/C17.v for the current list). Tie: translation + ALL answers of the real NullO/IsNullO/DerivO/SDerivO/MatchO/IsMatchO "
+         "on ground regexes over {a,b} and strings of length <= 3 under both placeholder policies against a direct Brzozowski matcher and a language-equivalence check; "
+         "generation mode for the first n answers.",
+    note="trusted: the translator genrels; the harness's direct matcher/equivalence oracle; gomini's concurrent execution is covered by C06",
+    technique="translation of the Go relation DSL to Coq + Coq proof + oracle comparison on the real code",
+)
